@@ -119,6 +119,11 @@ def _w_mat(mp, rows, cplx):
     return M
 
 
+def _w_key(spec):
+    """index spec of a recorded assignment: an int, or [start, stop, step] (None allowed) for a slice"""
+    return slice(*spec) if isinstance(spec, list) else spec
+
+
 def _w_enc(mp, M):
     return [[_w_tok(mp, M[i, j]) for j in range(M.cols)] for i in range(M.rows)]
 
@@ -160,6 +165,29 @@ def worker_run(task):
         mp.prec = p
         P, L, U = mp.lu(A)
         out.update(P=_w_enc(mp, P), L=_w_enc(mp, L), U=_w_enc(mp, U))
+    elif op == "lu_history":
+        # history on ONE matrix object at ONE precision: factor (fills A._LU) / assign (element or slice) ... then lu(A)
+        log = []
+        for st in task["steps"]:
+            if st[0] == "factor":
+                try:
+                    (mp.lu if st[1] == "lu" else mp.LU_decomp)(A)
+                    log.append("ok")
+                except Exception as e:  # noqa  (singular first contents: nothing is cached)
+                    log.append(type(e).__name__)
+            else:
+                key = (_w_key(st[1]), _w_key(st[2]))
+                v = st[3]
+                A[key] = _w_mat(mp, v["m"], cplx) if "m" in v else _w_val(mp, v["s"], cplx)
+                log.append("set")
+        out["log"] = log
+        out["Acur"] = _w_enc(mp, A)
+        try:
+            P, L, U = mp.lu(A)
+            out.update(P=_w_enc(mp, P), L=_w_enc(mp, L), U=_w_enc(mp, U))
+        except Exception as e:  # noqa  (kept inside the result: the judge still needs Acur)
+            out["final_exc"] = type(e).__name__
+            out["final_msg"] = str(e)[:200]
     elif op == "qr":
         Q, R = mp.qr(A, mode=task.get("mode", "full"))
         out.update(Q=_w_enc(mp, Q), R=_w_enc(mp, R))
@@ -187,7 +215,21 @@ def worker_run(task):
     elif op == "sqrtm":
         out["X"] = _w_enc(mp, mp.sqrtm(A))
     elif op == "powm":
-        out["X"] = _w_enc(mp, mp.powm(A, task["k"]))
+        if "r" in task:        # exact dyadic exponent num/den: den = 2 -> sqrtm branch of powm, den = 4 -> expm(r*logm) branch
+            out["X"] = _w_enc(mp, mp.powm(A, mp.mpf(task["r"][0]) / task["r"][1]))
+        else:
+            out["X"] = _w_enc(mp, mp.powm(A, task["k"]))
+    elif op == "hist":
+        # the same call on the same (exactly given) matrix at each precision of task["precs"], in this one process, in this order
+        stages = []
+        for q in task["precs"]:
+            sub = dict(task["call"])
+            sub.update(prec=q, A=task["A"], cplx=cplx)
+            try:
+                stages.append({"ok": worker_run(sub)})
+            except Exception as e:  # noqa
+                stages.append({"exc": type(e).__name__, "msg": str(e)[:200]})
+        out["stages"] = stages
     elif op == "matpow":
         out["X"] = _w_enc(mp, A ** task["k"])
     elif op == "cossin":
@@ -301,6 +343,14 @@ def run_tasks(tasks, timeout=20.0, nworkers=3):
                     nxt[0] += 1
                 if i >= len(tasks):
                     return
+                if tasks[i].get("fresh"):
+                    # a process of its own, fresh from `import mpmath`: what the task observes depends on the task alone
+                    w1 = Worker()
+                    try:
+                        results[i] = w1.call(tasks[i], tasks[i].get("timeout", timeout))
+                    finally:
+                        w1.close()
+                    continue
                 results[i] = w.call(tasks[i], tasks[i].get("timeout", timeout))
         finally:
             w.close()
@@ -681,7 +731,8 @@ if __name__ == "__main__":
 
 # defect families whose failing inputs are attributed to a common site (the defect sits in LU_decomp, reached from
 # lu_solve / inverse / lu)
-SITE_OF_TAG = {"singular_typeerror": "linalg.LU_decomp", "singular_returned": "linalg.LU_decomp"}
+SITE_OF_TAG = {"singular_typeerror": "linalg.LU_decomp", "singular_returned": "linalg.LU_decomp",
+               "sqrtm_noconvergence_wide_spectrum": "calculus.sqrtm"}
 
 try:
     import findings as _findings
@@ -703,6 +754,10 @@ try:
         t = inp.get("task", {})
         return (t.get("op") == "qr_solve" and inp.get("tag") == "exception_wellcond"
                 and any(untok(x)[0] == 0 for row in t.get("A", []) for x in row))
+
+    @_findings.predicate("la_sqrtm_noconvergence_wide_spectrum")
+    def _p6(inp):
+        return inp.get("tag") == "sqrtm_noconvergence_wide_spectrum" and ":rot_slow_" in str(inp.get("cls"))
 
     @_findings.predicate("la_lu_cache_history")
     def _p4(inp):
